@@ -24,5 +24,7 @@ for p in sorted(src.glob("*.py")):
         if f"{p.stem}:{qn}" in t:
             t[f"{p.stem}:{qn}"]["skeleton"] = skeleton(fn)
             t[f"{p.stem}:{qn}"]["text_skeleton"] = text_skeleton(fn)
+from nv.normalize import call_keywords  # noqa: E402
+t["<calls>"] = {"keywords": call_keywords({p.stem: ast.parse(p.read_text()) for p in sorted(src.glob("*.py"))})}
 REF_FILE.write_text(json.dumps(t, indent=0, sort_keys=True) + "\n")
-print(f"{len(t)} functions, {sum(len(e.get('locals', [])) for e in t.values())} locals -> {REF_FILE}")
+print(f"{len(t)} entries, {sum(len(e.get('locals', [])) for e in t.values() if isinstance(e, dict))} locals -> {REF_FILE}")
